@@ -375,7 +375,7 @@ structure Params where
   freq : Freq
   sOrd : Nat
   sSod : Nat
-  sUs : Nat                        -- microseconds of the start (rrule ignores them, the plugin's `start_date` keeps them)
+  sUs : Nat                        -- microseconds of the start as written (rrule and, since 8a555f7, `_at_start_time` drop them)
   off : Int
   datePrecision : Bool             -- start given with date precision
   interval : Int                   -- as written in the recipe (may be 0 or negative)
@@ -434,9 +434,15 @@ def Params.intList (p : Params) (name : Kw) : Option (List Int) :=
   | .bysecond => p.bysecond
   | _ => none
 
-/-- `CalendarRule._at_start_time`: a date at the start's time of day — `self.start_date.time()`,
-    *including its microseconds* (D53) — in the start's zone -/
-def atStartTime (sSod sUs : Nat) (off : Int) (d : Nat) : Inst := ⟨(d : Int) * 86400 + sSod - off, off, sUs⟩
+/-- `CalendarRule._at_start_time` (since fix 8a555f7): a date at the start's time of day *cut to
+    whole seconds* (`self.start_date.time().replace(microsecond=0)`, like the values `rrule` emits)
+    in the start's zone -/
+def atStartTime (sSod : Nat) (off : Int) (d : Nat) : Inst := ⟨(d : Int) * 86400 + sSod - off, off, 0⟩
+
+/-- the behaviour before fix 8a555f7 (D53), kept only as an explicitly named old model for the
+    regression witness in `Props/C15.lean`: the start's microseconds were kept -/
+def atStartTimeKeepingMicros (sSod sUs : Nat) (off : Int) (d : Nat) : Inst :=
+  ⟨(d : Int) * 86400 + sSod - off, off, sUs⟩
 
 /-- `parse_datetimespec` on a datetime (object or string): its own wall clock and zone; a naive
     one means UTC -/
@@ -446,7 +452,7 @@ def parseDatetimespec (d s us : Nat) (o : Option Int) : Inst := ⟨(d : Int) * 8
     `parse_datetimespec`; date string or `date` → `_at_start_time`; then `.astimezone(utc)`, which
     keeps the instant. -/
 def normUntil (sSod : Nat) (off : Int) : DateArg → Int
-  | .date d => (atStartTime sSod 0 off d).abs          -- rule values are on whole seconds: the
+  | .date d => (atStartTime sSod off d).abs            -- rule values are on whole seconds: the
   | .dtObj d s us o => (parseDatetimespec d s us o).abs   -- microseconds of `until` never matter
   | .dtStr d s us o => (parseDatetimespec d s us o).abs
 
@@ -459,10 +465,10 @@ def intendedUntil (sSod : Nat) (off : Int) : DateArg → Int
 /-- `_process_special_cases` for one date-like `include` / `exclude` entry (since fix eef84fd):
     `datetime` → `parse_datetimespec` (naive = UTC); `date` → `_at_start_time`; string →
     `_at_start_time(parse_date(str))` (the date part only).  Never fails. -/
-def normDateArg (sSod sUs : Nat) (off : Int) : DateArg → Option Inst
-  | .date d => some (atStartTime sSod sUs off d)
+def normDateArg (sSod sUs : Nat) (off : Int) : DateArg → Option Inst   -- `sUs`: the start's microseconds, ignored
+  | .date d => some (atStartTime sSod off d)
   | .dtObj d s us o => some (parseDatetimespec d s us o)
-  | .dtStr d _ _ _ => some (atStartTime sSod sUs off d)
+  | .dtStr d _ _ _ => some (atStartTime sSod off d)
 
 /-- what the entry means: a date is *the occurrence of that date*, i.e. the start's time of day as
     the rule emits it (whole seconds) in the start's zone; a datetime is the instant it says -/
